@@ -625,7 +625,7 @@ def run_model(cases, res):
     """cases: list of (cfg, ops, rec); appends MISMATCH strings; returns number of histories the model reproduces"""
     if not cases:
         return 0
-    path = os.path.join(COQ, 'gprops', 'K_obj_cases.v')
+    path = os.path.join(COQ, 'gprops', 'K_obj_cases_%d.v' % os.getpid())
     txt = [HEADER]
     for k, (cfg, ops, rec) in enumerate(cases):
         txt.append(case_text(k, cfg, ops[:len(rec['steps'])], rec))
@@ -633,7 +633,7 @@ def run_model(cases, res):
     open(path, 'w').write('\n'.join(txt) + '\n')
     t = time.time()
     try:
-        p = subprocess.run(['coqc', '-Q', 'theories', 'QSC', '-Q', 'gen', 'QSCGen', '-Q', 'gprops', 'QSCGProps', 'gprops/K_obj_cases.v'],
+        p = subprocess.run(['coqc', '-Q', 'theories', 'QSC', '-Q', 'gen', 'QSCGen', '-Q', 'gprops', 'QSCGProps', 'gprops/K_obj_cases_%d.v' % os.getpid()],
                            cwd=COQ, capture_output=True, text=True, timeout=600)
         rc, out = p.returncode, p.stdout + p.stderr
     except subprocess.TimeoutExpired:
